@@ -119,7 +119,7 @@ class ObjRunner:
             # module-level constants of the callee's module: one object per runner, so state kept in them is shared between calls
             for k, v in self.module_env(f.module.rel).items():
                 env.setdefault(k, v)
-            it = Interp(env, call_hook=self.hook, loop_hook=self.loop)
+            it = Interp(env, call_hook=self.hook, loop_hook=self.loop, strict=True)
             try:
                 it.run(node.body)
             except Flow as fl:
@@ -263,7 +263,7 @@ class ObjRunner:
             pname = node.args.args[0].arg
 
             def call_lambda(x):
-                sub = Interp(dict(interp.env), call_hook=self.hook, loop_hook=self.loop)
+                sub = Interp(dict(interp.env), call_hook=self.hook, loop_hook=self.loop, strict=True)
                 sub.env[pname] = x
                 return sub.ev(node.body)
             return call_lambda
